@@ -14,6 +14,9 @@ import (
 	"sort"
 	"testing"
 
+	"github.com/westerndigitalcorporation/blb/internal/core"
+	"github.com/westerndigitalcorporation/blb/internal/curator"
+	"github.com/westerndigitalcorporation/blb/internal/curator/durable/state"
 	vc "github.com/westerndigitalcorporation/blb/pkg/verifcluster"
 	vw "github.com/westerndigitalcorporation/blb/pkg/verifwire"
 )
@@ -196,6 +199,11 @@ func TestVerifC14(t *testing.T) {
 			c14Directed(root, tr, id, w)
 		}
 	}
+	for ci := 0; ci < vw.Scale(150, 3000); ci++ {
+		if vw.CaseSelected(fmt.Sprintf("s%d", ci)) {
+			c14Scripted(root, ci, tr)
+		}
+	}
 	n := vw.Scale(30, 400)
 	for ci := 0; ci < n; ci++ {
 		if !vw.CaseSelected(fmt.Sprint(ci)) {
@@ -203,4 +211,240 @@ func TestVerifC14(t *testing.T) {
 		}
 		c14Case(root, ci, tr)
 	}
+}
+
+// ---------------------------------------------------------------- compositional harness
+//
+// The REAL tractPacker (addTract/doStat, doneAdding, packTracts, packChunks, doEncode with all stages and
+// the cleanup) against a scripted tpContext (the repository's own seam): every reply is drawn by the
+// case's generator.  The model's packer is fed the same replies in the order the real packer made its
+// calls; it must know every call (line 81 answers -2 otherwise), finish with the same number of
+// committed chunks, and have no call left that the real packer did not make (line 82).
+
+func c14Scripted(root *vw.Rng, ci int, tr *vw.Trace) {
+	id := fmt.Sprintf("s%d", ci)
+	r := root.Fork(uint64(50000 + ci))
+	tr.Case(id)
+	nTS := 9
+	tr.Op(1, int64(nTS), 2, 0, 0)
+	tr.Obs()
+	nt := r.PickInt(6, 6, 7, 8, 5)
+	repl := r.PickInt(1, 2, 2, 3)
+	blobID := core.BlobID(uint64(1)<<32 | 77)
+	tr.Op(2, 0, int64(nt), 1)
+	tr.Obs()
+	var adds []curator.VerifC14Add
+	pFail := r.PickInt(0, 0, 50, 150, 400)
+	for t := 0; t < nt; t++ {
+		perm := r.Perm(nTS)
+		hosts := perm[:repl]
+		ver := r.Range(1, 3)
+		l := []int64{20, 0, int64(t), int64(ver), int64(repl)}
+		a := curator.VerifC14Add{ID: core.TractID{Blob: blobID, Index: core.TractKey(t)}, Version: ver}
+		for _, h := range hosts {
+			l = append(l, int64(h+1))
+			a.From = append(a.From, core.TSAddr{ID: core.TractserverID(h + 1), Host: fmt.Sprintf("ts%d", h+1)})
+		}
+		tr.Op(l...)
+		tr.Obs()
+		adds = append(adds, a)
+	}
+	// scripted replies, fixed up front so that they do not depend on goroutine order
+	type key struct{ ts, tract int }
+	stat := map[key]core.StatTractReply{}
+	setv := map[key]core.Error{}
+	size := map[int]int{}
+	for t := 0; t < nt; t++ {
+		size[t] = r.Range(1, 500)
+	}
+	errs := []core.Error{core.ErrRPC, core.ErrVersionMismatch, core.ErrNoSuchTract, core.ErrVersionMismatch}
+	for _, a := range adds {
+		for _, f := range a.From {
+			k := key{int(f.ID), int(a.ID.Index)}
+			rep := core.StatTractReply{Size: int64(size[int(a.ID.Index)]), ModStamp: uint64(r.Range(1, 5))<<32 | uint64(r.Range(1, 1000))}
+			if r.Intn(1000) < pFail {
+				rep = core.StatTractReply{Err: errs[r.Intn(len(errs))]}
+			} else if r.Intn(1000) < pFail/3 {
+				rep.Size += 7 // replicas disagree about the length
+			}
+			stat[k] = rep
+			setv[k] = core.NoError
+			if r.Intn(1000) < pFail/2 {
+				setv[k] = []core.Error{core.ErrStampChanged, core.ErrRPC, core.ErrVersionMismatch}[r.Intn(3)]
+			}
+		}
+	}
+	packErr := map[int]core.Error{}
+	for j := 0; j < 40; j++ {
+		if r.Intn(1000) < pFail/3 {
+			packErr[j] = core.ErrRPC
+		}
+	}
+	encErr, allocErr, commitErr := core.NoError, core.NoError, core.NoError
+	if r.Intn(1000) < pFail/3 {
+		encErr = core.ErrRPC
+	}
+	if r.Intn(1000) < pFail/4 {
+		allocErr = core.ErrLeaderContinuityBroken
+	}
+	if r.Intn(1000) < pFail/3 {
+		commitErr = []core.Error{core.ErrLeaderContinuityBroken, core.ErrConflictingState}[r.Intn(2)]
+	}
+	allocTSFail := r.Intn(1000) < pFail/4
+	tsPerm := r.Perm(nTS)
+	rsPart := core.PartitionID(core.RSPartition<<30) | 1
+	s := &curator.VerifC14Scripted{
+		Stat: func(ts int, id core.TractID, version int) core.StatTractReply { return stat[key{ts, int(id.Index)}] },
+		SetV: func(ts int, id core.TractID, version int, stamp uint64) core.Error { return setv[key{ts, int(id.Index)}] },
+		Pack: func(ts int, chunk core.RSChunkID, specs []core.PackTractSpec) core.Error { return packErr[int(chunk.ID)] },
+		Encode: func(ts int, chunk core.RSChunkID) core.Error { return encErr },
+		AllocTS: func(n int) ([]string, []core.TractserverID) {
+			if allocTSFail {
+				return nil, nil
+			}
+			var a []string
+			var ids []core.TractserverID
+			for _, p := range tsPerm[:n] {
+				a = append(a, fmt.Sprintf("ts%d", p+1))
+				ids = append(ids, core.TractserverID(p+1))
+			}
+			return a, ids
+		},
+		AllocID: func(n int) (core.RSChunkID, core.Error) {
+			if allocErr != core.NoError {
+				return core.RSChunkID{}, allocErr
+			}
+			return core.RSChunkID{Partition: rsPart, ID: 1}, core.NoError
+		},
+		Commit: func(id core.RSChunkID, hosts []core.TractserverID, data [][]state.EncodedTract) core.Error { return commitErr },
+	}
+	committed, chunks := curator.VerifC14RunScripted(s, core.StorageClassRS_6_3, vc.C14Target, adds)
+
+	// the model's round on the same durable state
+	tr.Op(80, 1)
+	var obs []int64
+	{
+		// stat calls the round issues at once: the first replica of every tract
+		var ls [][]int64
+		for _, a := range adds {
+			ls = append(ls, []int64{16, -1, 1, int64(a.From[0].ID), 0, int64(a.ID.Index), int64(a.Version), 0, 0, 0, 0})
+		}
+		sort.Slice(ls, func(i, j int) bool { return vc.C14Less(ls[i], ls[j]) })
+		obs = append(obs, 0, int64(len(ls)))
+		for _, l := range ls {
+			obs = append(obs, l...)
+		}
+		obs = append(obs, 0)
+	}
+	tr.Obs(obs...)
+	fin := func(done bool) []int64 {
+		if done {
+			return []int64{1, 1, int64(committed), 0}
+		}
+		return []int64{0}
+	}
+	nround := 0
+	for _, c := range s.Calls {
+		if c.Kind == 1 || c.Kind == 2 || c.Kind == 3 || c.Kind == 4 || c.Kind == 7 || c.Kind == 8 {
+			nround++
+		}
+	}
+	seen := 0
+	for _, c := range s.Calls {
+		var d, res, hint []int64
+		switch c.Kind {
+		case 1:
+			rep := stat[key{c.TS, int(c.Tract.Index)}]
+			d = []int64{16, -1, 1, int64(c.TS), 0, int64(c.Tract.Index), int64(c.Version), 0, 0, 0, 0}
+			res = []int64{int64(rep.Err), rep.Size, int64(rep.ModStamp >> 32), int64(rep.ModStamp & 0xffffffff)}
+			if rep.Err != core.NoError {
+				res = []int64{int64(rep.Err), 0, 0, 0}
+			}
+		case 2:
+			d = []int64{13, -1, 1, int64(c.TS), 0, int64(c.Tract.Index), int64(c.Version), 0, 0, 0, 4, int64(c.TS), 1, int64(c.Stamp >> 32), int64(c.Stamp & 0xffffffff)}
+			res = []int64{int64(setv[key{c.TS, int(c.Tract.Index)}])}
+		case 3:
+			d = []int64{17, -1, 1, int64(c.TS), 0, -1, 0, 0, int64(c.N), 0, 2, int64(c.TS), int64(c.Chunk.ID)}
+			res = []int64{int64(packErr[int(c.Chunk.ID)])}
+		case 4:
+			d = []int64{18, -1, 1, int64(c.TS), 0, -1, 0, 0, int64(c.N), 0, 2, int64(c.TS), int64(c.Chunk.ID)}
+			res = []int64{int64(encErr)}
+		case 7:
+			d = []int64{40, -1, 1, 0, 0, -1, 0, 0, 0, 0, 1, int64(c.N)}
+			res = []int64{int64(allocErr), 1}
+			if allocErr != core.NoError {
+				res = []int64{int64(allocErr), 0}
+			} else {
+				nenc := len(chunks) / 6
+				hint = []int64{int64(nenc)}
+				for i := 0; i < nenc; i++ {
+					if allocTSFail {
+						hint = append(hint, 0)
+					} else {
+						hint = append(hint, 9)
+						for _, p := range tsPerm[:9] {
+							hint = append(hint, int64(p+1))
+						}
+					}
+					for j := 0; j < 6; j++ {
+						t := chunks[i*6+j].Tracts[0]
+						hint = append(hint, 0, int64(t.ID.Index), int64(t.Offset))
+					}
+				}
+			}
+		case 8:
+			d = []int64{41, -1, 1, 0, 0, -1, 0, 0, 0, 0, 1, int64(c.Chunk.ID)}
+			res = []int64{int64(commitErr)}
+		default:
+			continue
+		}
+		seen++
+		op := append([]int64{81}, d...)
+		op = append(op, int64(len(res)))
+		op = append(op, res...)
+		op = append(op, int64(len(hint)))
+		op = append(op, hint...)
+		tr.Op(op...)
+		tr.Obs(fin(seen == nround)...)
+	}
+	if nround == 0 {
+		// nothing to stat at all cannot happen here (every tract has a replica)
+	}
+	tr.Op(82)
+	tr.Obs(0)
+	// monitor (model-free): a chunk is committed only if every bump of its tracts succeeded, and every
+	// tract of a committed chunk was bumped on every replica whose stat succeeded
+	for _, c := range s.Calls {
+		if c.Kind != 8 {
+			continue
+		}
+		for _, ets := range c.Data {
+			for _, et := range ets {
+				for _, a := range adds {
+					if a.ID != et.ID {
+						continue
+					}
+					if et.NewVersion != a.Version+1 {
+						vw.Report(vw.Violation{Property: "C14", Signature: "scripted/commit-new-version-is-not-stat-version-plus-one", What: "CommitRSChunk carries a NewVersion other than the stat version + 1", Case: id})
+					}
+					for _, f := range a.From {
+						k := key{int(f.ID), int(a.ID.Index)}
+						if stat[k].Err == core.NoError {
+							bumped := false
+							for _, b := range s.Calls {
+								if b.Kind == 2 && b.TS == k.ts && b.Tract == a.ID && b.Stamp == stat[k].ModStamp && b.Version == a.Version+1 {
+									bumped = true
+								}
+							}
+							if !bumped || setv[k] != core.NoError {
+								vw.Report(vw.Violation{Property: "C14", Signature: "scripted/commit-without-successful-conditional-bump", What: "the packer committed a tract although a stat'ed replica was not bumped with its stamp or the bump failed", Case: id})
+							}
+						}
+					}
+				}
+			}
+		}
+	}
+	vw.Stat("scripted.cases", 1)
+	vw.Stat(fmt.Sprintf("scripted.committed=%d", committed), 1)
 }
